@@ -15,7 +15,7 @@ nothing is bounded.
   UDP, server     fill_injective_mod_v4mapped, server_delivers_iff_registered,
                   foreign_source_no_effect, negotiated_source_effect
   UDP, client     client_filter, client_strict_history, anyport_latches_first, client_foreign_ip_history,
-                  client_foreign_zone
+                  client_foreign_zone, client_stopped_no_effect
   UDP + sessions  delivered_only_if_negotiated (invariant over all histories of the whole server)
   control         other_ip_rejected_unchanged, other_conn_rejected_unchanged,
                   linked_only_to_own_address (invariant over all histories),
@@ -184,6 +184,22 @@ theorem client_foreign_zone (s : CL) (d : Dgram) (hm : s.multicast = false) (h :
 example : ({ anyPort := false, readIP := [0xfe,0x80,0,0,0,0,0,0,0,0,0,0,0,0,0,1], readPort := 8000, readZone := "eth0" } : CL).multicast = false ∧
     ({ anyPort := false, readIP := [0xfe,0x80,0,0,0,0,0,0,0,0,0,0,0,0,0,1], readPort := 8000, readZone := "eth0" } : CL).readZone ≠
       (⟨[0xfe,0x80,0,0,0,0,0,0,0,0,0,0,0,0,0,1], "eth1", 8000, 10, 1⟩ : Dgram).zone := by decide
+
+/-- **After PAUSE / TEARDOWN (the read loop is stopped) traffic reaches nothing**: whatever arrives –
+also from the negotiated source – the listener's read port, last-packet time and deliveries stay as
+they are; the datagram only waits in the socket.  After the next `start()` the waiting datagrams go
+through the same filter as any other (`CLQ.start` is a fold of `CL.recv`, to which `client_filter`,
+`client_strict_history` … apply). -/
+theorem client_stopped_no_effect (q : CLQ) (ip : IP) (zone : String) (port : Int) (len : Nat) (now : Int)
+    (h : q.running = false) :
+    (q.deliver ip zone port len now).1.cl = q.cl ∧ (q.deliver ip zone port len now).2 = none ∧
+    (q.deliver ip zone port len now).1.running = false := by
+  simp [CLQ.deliver, h]
+
+example : (CLQ.stop { cl := { anyPort := false, readIP := [127,0,0,1], readPort := 8000 } }).running = false ∧
+    ((CLQ.stop { cl := { anyPort := false, readIP := [127,0,0,1], readPort := 8000 } }).deliver [127,0,0,1] "" 8000 10 5).1.cl.delivered = [] ∧
+    (((CLQ.stop { cl := { anyPort := false, readIP := [127,0,0,1], readPort := 8000 } }).deliver [127,0,0,1] "" 8000 10 5).1.start 9).cl.delivered = [(10, 8000)] := by
+  decide
 
 /-- **The any-port relaxation latches the first source port.**  With `AnyPortEnable` and no port yet,
 for a history `pre ++ d :: post` in which no datagram of `pre` comes from the negotiated address and
